@@ -707,7 +707,7 @@ def run(ctx: Ctx) -> None:
     n20 = collected_is_used(ctx, "C09.R20", ("dds.introspect", "dds._introspect_indirect"),
                             "`x = dds.load(p); Source().refresh()` where the method refresh keeps p: the keep inside the method is not seen by the pre-analysis, the load before it is "
                             "accepted and answers None; a reader that loads through `Reader().read()` is not invalidated when the path changes")
-    rep.floor("C09.R20", n20, 2)
+    rep.floor("C09.R20", n20, 1)
     from . import storerules as _S9
     rep.rule("C09.R19", "as C07.R14: the local store resolves the link of a path only after it saw that the link exists: a path that was never kept (next to a kept one) is reported "
                         "missing - dds.load does not return None for it, and a reader is not evaluated on None")
@@ -790,10 +790,20 @@ def local_paths_refused(ctx: Ctx, rule: str) -> int:
             continue
         fa = f.node.args
         f_locals = [x.arg for x in fa.posonlyargs + fa.args + fa.kwonlyargs if x.annotation is not None and "LocalVar" in unparse(x.annotation, 100)]
+        # ... or the object keeps them: `self._var_names = var_names` in the constructor of the inspector class
+        if f.cls is not None and "__init__" in f.cls.methods:
+            init = f.cls.methods["__init__"]
+            ia = init.node.args
+            init_locals = [x.arg for x in ia.posonlyargs + ia.args + ia.kwonlyargs if x.annotation is not None and "LocalVar" in unparse(x.annotation, 100)]
+            for st_ in init.own_nodes():
+                if isinstance(st_, (ast.Assign, ast.AnnAssign)) and isinstance(st_.value, ast.Name) and st_.value.id in init_locals:
+                    tg_ = st_.targets[0] if isinstance(st_, ast.Assign) else st_.target
+                    if isinstance(tg_, ast.Attribute) and isinstance(tg_.value, ast.Name) and tg_.value.id == "self":
+                        f_locals.append("self." + tg_.attr)
         for c in f.own_nodes():
             if isinstance(c, ast.Call) and isinstance(c.func, ast.Attribute) and c.func.attr == res.name and f_locals:
                 n += 1
-                passed = [x for x in list(c.args) + [k.value for k in c.keywords] if isinstance(x, ast.Name) and x.id in f_locals]
+                passed = [x for x in list(c.args) + [k.value for k in c.keywords] if isinstance(x, (ast.Name, ast.Attribute)) and unparse(x) in f_locals]
                 d2 = f"{f.name}: the local names are handed to the store-path resolver"
                 if passed:
                     rep.ok(rule, f.qname, d2, f.loc(c))
